@@ -323,14 +323,15 @@ func c02UpsertRemove(p *Prog, r *Report, pools []poolInfo) {
 				okNF := len(lt.notFound) > 0
 				why := "no test of the lookup result"
 				for _, e := range lt.notFound {
-					seen := Reach(fn, lt.call, nil, func(x Edge) bool {
+					nfOnly := func(x Edge) bool {
 						for _, f := range lt.found {
 							if f.B == x.B && f.K == x.K {
 								return false
 							}
 						}
 						return true
-					})
+					}
+					seen := Reach(fn, lt.call, nil, nfOnly)
 					_ = e
 					for in := range seen {
 						switch x := in.(type) {
@@ -339,7 +340,7 @@ func c02UpsertRemove(p *Prog, r *Report, pools []poolInfo) {
 								okNF, why = false, "state is stored on the not-found path at "+p.InstrPos(in)
 							}
 						case *ssa.Return:
-							if isNil, known := returnErrIsNil(x, errIdx); !known || isNil {
+							if isNil, known := returnErrIsNil(x, errIdx); (!known || isNil) && !errNonNilOnPaths(fn, x, errIdx, lt.call, nfOnly) {
 								okNF, why = false, "the not-found path returns a nil/unknown error at "+p.InstrPos(in)
 							}
 						case *ssa.Call:
